@@ -46,9 +46,6 @@ func makeSchedule(idx int) schedule {
 	thorough := ev.Tier() == "thorough"
 	sc := schedule{Idx: idx, FaultPhases: ev.Pick(3, 5), MaxTxs: ev.Pick(60, 110)}
 	c := clusterCfg{N: 4, BlockTime: blockTime, KeyLabel: fmt.Sprintf("c19-%d-%d", ev.Seed(), idx)}
-	if thorough && idx%3 == 2 && idx%12 != 2 {
-		c.N = 7 // idx%12 in {5, 8, 11}; 8 also has the N+2 committee
-	}
 	c.SRIH = idx%2 == 1
 	c.ExtPool = idx%3 == 0
 	switch idx % 4 {
@@ -57,14 +54,35 @@ func makeSchedule(idx int) schedule {
 	case 3:
 		c.MaxSysFee = 4 * txSysFee
 	}
-	if idx%6 == 2 {
+	switch idx % 6 {
+	case 1:
+		if thorough {
+			c.N = 7
+		}
+	case 2:
 		// committee of N+2 with elections: the validator set changes at epoch
 		// boundaries, nodes switch between watch-only and validator
 		c.Extra = 2
 		c.MaxTx, c.MaxSysFee = 0, 20000*txSysFee // candidate registration costs 1000 GAS of system fee
-	}
-	if idx%6 == 4 {
+		if thorough && idx%12 == 8 {
+			c.N = 7
+		}
+	case 3:
+		// ValidatorsHistory: seven validators shrink to four at an epoch
+		// boundary inside the run (committee of seven throughout)
+		c.N, c.SwitchTo, c.SwitchAt = 7, 4, 7
+		if idx%12 == 9 {
+			c.SwitchAt = 14
+		}
+	case 4:
 		c.MaxTPB = 4 * blockTime
+	case 5:
+		// ValidatorsHistory: four validators grow to seven; the three other
+		// committee members run watch-only nodes until then
+		c.N, c.SwitchTo, c.SwitchAt = 4, 7, 14
+		if idx%12 == 11 {
+			c.SwitchAt = 7
+		}
 	}
 	sc.Cfg = c
 	sc.ID = fmt.Sprintf("sched-%d", idx)
@@ -152,7 +170,7 @@ func (a *attempt) quiet(wantBlocks int, untilNoPending bool) bool {
 	if untilNoPending {
 		bcfg := a.cl.nodes[0].bc.GetConfig()
 		perBlock := min(int64(bcfg.MaxTransactionsPerBlock), bcfg.MaxBlockSystemFee/txSysFee)
-		hardStop += uint32(6*a.sc.Cfg.N+6) + uint32(int64(len(a.cl.pendingTxs(stable)))/max(perBlock, 1))
+		hardStop += uint32(6*a.sc.Cfg.MaxVals()+6) + uint32(int64(len(a.cl.pendingTxs(stable)))/max(perBlock, 1))
 	}
 	ok := true
 	for {
@@ -288,6 +306,12 @@ func (a *attempt) feeder(stop chan struct{}, wg *sync.WaitGroup) {
 				if len(subset) == 0 {
 					subset = []int{r.Intn(n)}
 				}
+			}
+			if c := a.sc.Cfg; c.SwitchTo > 0 && c.SwitchTo < c.N && mx <= c.SwitchAt {
+				// up to a shrinking of the validator set every primary has
+				// something to propose: the first block after the last epoch of
+				// the big set is then never empty
+				subset = a.allNodes()
 			}
 			a.submit(tx, subset)
 			a.net.count("txs_submitted", 1)
@@ -476,6 +500,12 @@ func runAttempt(t testing.TB, sc schedule) (res *attemptResult, setupErr error) 
 			if c.Quorumless {
 				cap = 12 * blockTime
 			}
+			if force != "" && cfg.SwitchTo > 0 && cfg.SwitchAt <= 7 && mx <= cfg.SwitchAt {
+				// an early change of the validator count is crossed while views
+				// change, so that late primaries of the old set take their turn
+				want = max(want, int(cfg.SwitchAt+1-mx))
+				cap = time.Duration(want) * 10 * blockTime
+			}
 			a.step(c, want, cap)
 		}
 		ok = a.quiet(2+a.sr.Intn(2), false)
@@ -483,8 +513,13 @@ func runAttempt(t testing.TB, sc schedule) (res *attemptResult, setupErr error) 
 	close(stopFeed)
 	wgFeed.Wait()
 	if ok {
-		// final quiet phase: every validator gets its turn as primary
-		a.quiet(cfg.N+1, true)
+		// final quiet phase: every validator gets its turn as primary, and a
+		// configured change of the validator count is well behind
+		want := cfg.MaxVals() + 1
+		if mx := maxU32(cl.heights()); cfg.SwitchTo > 0 && mx < cfg.SwitchAt+1 {
+			want += int(cfg.SwitchAt + 1 - mx)
+		}
+		a.quiet(want, true)
 	}
 	close(stop)
 	wg.Wait()
